@@ -311,7 +311,24 @@ func variantOf(sc Scenario) string {
 }
 
 func (r *result) violate(sc Scenario, what, detail string) {
-	sig := fmt.Sprintf("C13|%s|%s|%s", sc.Link, variantOf(sc), what)
+	r.violateCell(sc, sc.Link, what, detail)
+}
+
+// family groups the pairings by the code that frames and refuses requests.
+func family(linkName string) string {
+	switch linkName {
+	case "tcp", "unix":
+		return "socket"
+	case "ws", "ws-fastsrv":
+		return "websocket"
+	case "udp", "mock":
+		return linkName
+	}
+	return "http"
+}
+
+func (r *result) violateCell(sc Scenario, cell, what, detail string) {
+	sig := fmt.Sprintf("C13|%s|%s|%s", cell, variantOf(sc), what)
 	for i := range r.Viol {
 		if r.Viol[i].Sig == sig {
 			r.Viol[i].N++
@@ -479,8 +496,11 @@ func (x *executor) truthful(sc Scenario, lk link, call []byte) {
 		}
 	}
 	if len(other) > 0 {
-		x.res.violate(sc, "caller-error-is-not-request-too-large",
-			fmt.Sprintf("limit %d, %d-byte request refused, but in %v of %d trials the caller did not get ErrRequestEntityTooLarge", sc.Limit, sc.Size, other, trials))
+		// Which error the caller sees after a large refusal is decided by a race (the peer's write error against the
+		// refusal already waiting to be read), so which pairings show it varies from run to run: the cell is the
+		// transport family, the pairing is named in the text.
+		x.res.violateCell(sc, family(sc.Link), "large-refusal|caller-error-is-not-request-too-large",
+			fmt.Sprintf("%s: limit %d, %d-byte request refused, but in %v of %d trials the caller did not get ErrRequestEntityTooLarge", sc.Link, sc.Limit, sc.Size, other, trials))
 	}
 	if len(x.res.Samples) < 2 {
 		x.res.Samples = append(x.res.Samples, sc.String())
